@@ -11,7 +11,7 @@
 From Coq Require Import ZArith List Bool.
 From AV Require Import Lib.Bytes Gen.Utils Gen.SctpConst Model.SctpRecv Model.SctpSend
   Proof.SctpRecvP Proof.SctpC01P Proof.SctpSendP Proof.SctpDupP Proof.SctpOrderP Proof.SctpOrderSP
-  Proof.SctpOrderTP Proof.SctpOrderEP Proof.SctpOnceP Proof.SctpOnceEP.
+  Proof.SctpOrderTP Proof.SctpOrderEP Proof.SctpOnceP Proof.SctpOnceEP Proof.SctpOnceFwdP.
 Import ListNotations.
 Local Open Scope Z_scope.
 
@@ -132,6 +132,25 @@ Theorem C01_at_most_once : forall base N t0 msgs st es,
             Forall (fun f => In f (send_msgs (mkS t0 []) msgs)) D.
 Proof. exact at_most_once. Qed.
 Print Assumptions C01_at_most_once.
+
+(* 8. At most once, all streams at once, FORWARD-TSN included.  For ANY message list and ANY event
+   list inside the TSN window -- DATA chunks drawn from the sent ones in any order with any
+   repetitions and omissions, interleaved with ARBITRARY FORWARD-TSN chunks -- the messages
+   delivered step by step are the messages of chunk runs Ds such that no run occurs twice in the
+   whole session and every run is the fragment list of a sent message: every delivery, on every
+   stream, is one sent message and no sent message is delivered twice.  (Chunk accounting of the
+   whole receiver: an accepted chunk is afterwards queued, pruned, or in exactly one delivery;
+   a TSN is accepted at most once also across FORWARD-TSN.) *)
+Theorem C01_at_most_once_all : forall base N t0 msgs es,
+  r32 base -> 0 <= N < 2147483648 -> in32 t0 ->
+  Forall (fun m => o_data m <> []) msgs -> Z.of_nat (total_frags msgs) <= SCTP_TSN_MODULO ->
+  Forall (ev_in base N) es ->
+  (forall c, In (EvData c) es -> In c (concat (send_msgs (mkS t0 []) msgs))) ->
+  exists Ds : list (list (list chunk)),
+    map out_msgs (snd (rrun (rinit base) es)) = map (map msgf) Ds /\
+    NoDup (concat Ds) /\ Forall (fun f => In f (send_msgs (mkS t0 []) msgs)) (concat Ds).
+Proof. intros base N t0 msgs es Hb HN. exact (at_most_once_all base N Hb HN t0 msgs es). Qed.
+Print Assumptions C01_at_most_once_all.
 
 (* Still PARTIAL: the two-endpoint statement "every message IS eventually delivered once the
    network heals" is liveness of the retransmission machinery; it is observed by the
